@@ -124,11 +124,11 @@ def keyval (vals : Nat → Slot) : List Nat → Option KeyVal
       | some v, some t => some (v :: t)
       | _, _ => none
 
-/-- value of key number `i` (none for an undeclared key) -/
+/-- value of key number `i` (none for an undeclared key; a key has at least one attribute) -/
 def kv (sch : Schema) (vals : Nat → Slot) (i : Nat) : Option KeyVal :=
   match sch.keys[i]? with
-  | none => none
-  | some key => keyval vals key
+  | some (a :: r) => keyval vals (a :: r)
+  | _ => none
 
 inductive Err
   | cacheIndex          -- CacheIndexError
@@ -187,24 +187,35 @@ def undoKeys (o : ObjId) : Trail → (Nat → Index) → (Nat → Index)
 
 def allKeys (sch : Schema) : List Nat := List.range sch.keys.length
 
+/-- `if val in cache_indexes[attr]: throw(CacheIndexError)` over the simple keys, then the composite keys -/
+def keyTaken (sch : Schema) (s : Sess) (vf : Nat → Slot) : Bool :=
+  (allKeys sch).any fun i => match kv sch vf i with
+    | some v => ((s.ixs i).get v).isSome
+    | none => false
+
+/-- `_get_from_identity_map_(pkval, 'created')`: an object with this primary key is already in the session -/
+def pkTaken (s : Sess) (pk : Option KeyVal) : Bool :=
+  match pk with
+  | some k => (s.pkIx.get k).isSome
+  | none => false
+
+/-- the identity map's undo closure: `if pkval is not None and cache_index.get(pkval) is obj: del cache_index[pkval]` -/
+def undoIdmap (ix : Index) (pk : Option KeyVal) (o : ObjId) : Index :=
+  match pk with
+  | some k => if ix.get k = some o then ix.erase k else ix
+  | none => ix
+
 /-- `Entity.__init__` -/
 def create (sch : Schema) (s : Sess) (cls : Nat) (pk : Option KeyVal) (vals : List (Option Int)) (lateFail : Bool) : Sess × Res :=
   let vf : Nat → Slot := fun a => .val ((vals[a]?).join)
-  if (allKeys sch).any (fun i => match kv sch vf i with
-        | some v => ((s.ixs i).get v).isSome     -- `if val in cache_indexes[attr]: throw(CacheIndexError)`
-        | none => false) then (s, { err := some .cacheIndex })
-  else if (match pk with
-        | some k => (s.pkIx.get k).isSome         -- `_get_from_identity_map_(pkval, 'created')`: already there
-        | none => false) then (s, { err := some .cacheIndex })
+  if keyTaken sch s vf then (s, { err := some .cacheIndex })
+  else if pkTaken s pk then (s, { err := some .cacheIndex })
   else
     let o := s.n
     let pk1 := s.pkIx.setOpt pk o                 -- `cache_index[pkval] = obj` inside the identity map
     if lateFail then
-      -- a relationship update raised: `for undo_func in reversed(undo_funcs)`; the identity map's undo closure:
-      -- `cache.objects.discard(obj); if pkval is not None and cache_index.get(pkval) is obj: del cache_index[pkval]`
-      ({ s with pkIx := match pk with
-                  | some k => if pk1.get k = some o then pk1.erase k else pk1
-                  | none => pk1 }, { err := some .constraint })
+      -- a relationship update raised: `for undo_func in reversed(undo_funcs)` (also `cache.objects.discard(obj)`)
+      ({ s with pkIx := undoIdmap pk1 pk o }, { err := some .constraint })
     else
       let ob : Obj := { cls := cls, status := .created, pk := pk, vals := vf, dbvals := fun _ => .notLoaded,
                         rbits := fun _ => false, wbits := fun _ => false, isNew := true, isSeed := false }
